@@ -164,11 +164,26 @@ func runBroken(cfg hx.Config, r *hx.Rand, meta *hx.Meta) error {
 			})
 		}
 	}
+	// calls whose argument types can never be resolved: "cannot generate" must be reported
+	for i, pl := range Plugins {
+		src := fmt.Sprintf("package p\n\nfunc use() {\n\t%s(zz%d)\n}\n", prefix[pl], i)
+		if i%3 == 1 {
+			src = fmt.Sprintf("package p\n\nfunc use(a int) {\n\t%s(a, zz%d)\n}\n", prefix[pl], i)
+		}
+		dir := filepath.Join(cfg.Work, fmt.Sprintf("u%05d", i))
+		o := RunFiles(cfg, dir, map[string]string{"u.go": src}, true)
+		os.RemoveAll(dir)
+		if o.Class == "harness-error" {
+			return fmt.Errorf("C09 harness: %s", o.Detail)
+		}
+		fmt.Fprintf(w, "(undef %s %d %s)\n", pl, i, o.Class)
+		meta.Count("undefined-argument")
+	}
 	w.Flush()
 	f.Close()
 	meta.ObsFiles = append(meta.ObsFiles, obsPath)
-	meta.Packages += len(cases)
-	meta.GoderiveRuns += len(cases)
-	meta.Cases += len(cases)
+	meta.Packages += len(cases) + len(Plugins)
+	meta.GoderiveRuns += len(cases) + len(Plugins)
+	meta.Cases += len(cases) + len(Plugins)
 	return nil
 }
